@@ -327,7 +327,7 @@ def run_C06(tier, seed):
         rep.obs_inc(f"damage_cases_run.{profile}", len(cases))
     if tier == "thorough":
         # no invalid / uninitialised read on damaged inputs: ASan over the quick damage set, memcheck over a strided subset
-        san.sanitizer_pass(rep, "C06", "asan", "quick", seed, 3000, jobs=16, extra_args=["--case-timeout", "60"])
+        san.sanitizer_pass(rep, "C06", "asan", "quick", seed, 3000, jobs=16, timeout=400, extra_args=["--case-timeout", "150"])
         san.valgrind_pass(rep, "C06", "quick", seed, 3, 240, 23)
     rep.exhaustive = (tier == "thorough")
     rep.note("exhaustive_scope", "thorough: every byte x 3 masks and every truncation length of the four small specimens" if tier == "thorough" else "sampled")
